@@ -1,13 +1,13 @@
 INIT Init
 NEXT Next
 CONSTANTS
-  A = 3
-  L = 3
+  A = 4
+  L = 2
   MaxLines = 2
-  Ks = {1, 2}
-  Fmts = {"bc_idx"}
+  Ks = {0, 1, 2}
+  Fmts = {"bc"}
   NFiles = {1}
-  Lazy = {"none"}
+  Lazy = {"other"}
   Touches = {"lookup"}
   Variant = "design"
 CONSTRAINT Emit
